@@ -144,7 +144,8 @@ Use(kind, t) == /\ Step /\ t \in metas /\ (kind = "recheck" => TargetExists(t) \
                 /\ Log([op |-> kind, target |-> t])
                 /\ UNCHANGED <<fs, gen, stamp, memo, hc, idx, metas, cwd>>
 \* rebuild searches the directories it is given: the content root itself ("own"), an empty directory,
-\* or a directory holding a copy of r/a only ("part"); what it can find is what is there NOW
+\* a directory holding a copy of r/a only ("part"), or one holding same-named, same-sized files with OTHER content
+\* ("decoy": every candidate is hashed and rejected, nothing is found); what it can find is what is there NOW
 Avail(search) == CASE search = "own" -> {f \in Files : Present(f)}
                    [] search = "part" -> {f \in {"a"} : Present(f)}
                    [] OTHER -> {}
@@ -167,7 +168,7 @@ Next == \/ \E t \in Targets, v \in 1 .. 3, pl \in 1 .. 2, rt \in {"lib", "cli", 
         \/ \E t \in Targets, v \in 1 .. 3 : CreateFail(t, v)
         \/ \E k \in {"add", "delete", "grow", "shrink", "rewrite", "rewritekeep"}, f \in Files : Mutate(k, f)
         \/ \E k \in {"recheck", "magnet", "edit"}, t \in Targets : Use(k, t)
-        \/ \E t \in Targets, se \in {"own", "empty", "part"} : Rebuild(t, se)
+        \/ \E t \in Targets, se \in {"own", "empty", "part", "decoy"} : Rebuild(t, se)
 Spec == Init /\ [][Next]_vars
 
 \* C09: every create describes the current state exactly as a fresh process would
